@@ -47,10 +47,15 @@ wbs = json.loads(sys.stdin.read())
 out = []
 for wb in wbs:
     try:
-        r = convert(xlsform=render.to_dict(wb) if isinstance(wb, dict) else wb, validate=False, pretty_print=False)
-        out.append(procsim.digest(r.xform, r.warnings, r.itemsets))
+        if isinstance(wb, dict) and "sheets" in wb:
+            wb = render.to_dict(wb)
+        # the same input object is converted twice: the second result must equal the first (a conversion must not consume its input)
+        for _ in range(2):
+            r = convert(xlsform=wb, validate=False, pretty_print=False)
+            out.append(procsim.digest(r.xform, r.warnings, r.itemsets))
     except Exception as e:
         out.append("error:" + type(e).__name__ + ":" + str(e)[:60])
+        out.append("error")
 print("@@" + json.dumps(out))
 '''
 
@@ -135,15 +140,16 @@ def run(rep):
     shapes, g = corpus.gen_shapes("ok", 4)
     nforms = 40 if rep.tier == "quick" else 300
     wbs = [formgen.decorate(c["rows"], seed=rep.seed + i, feat=corpus.ALL_FEAT).wb() for i, c in enumerate(corpus.pick(shapes, nforms, rep.seed))]
-    wbs += [forms["f1"], forms["f2"], forms["f3"]]
+    wbs += [forms["f1"], forms["f2"], forms["f3"]] + procsim.extra_forms()
     seeds = list(range(8)) if rep.tier == "quick" else list(range(48))
     from concurrent.futures import ThreadPoolExecutor
 
     with ThreadPoolExecutor(max_workers=8) as ex:
         sweeps = list(ex.map(_seed_run, [(wbs, s, repo) for s in seeds]))
-    ref = sweeps[0]
-    for s, sw in zip(seeds[1:], sweeps[1:]):
-        traces.append([{"ev": "fact", "digest": d, "canon": c, "what": f"seed {s} form {i}"} for i, (d, c) in enumerate(zip(sw, ref))])
+    # canonical value of form i = its FIRST conversion under seed 0; every (seed, repetition) must reproduce it
+    ref = [sweeps[0][2 * (i // 2)] for i in range(len(sweeps[0]))]
+    for s, sw in zip(seeds, sweeps):
+        traces.append([{"ev": "fact", "digest": d, "canon": c, "what": f"seed {s} form {i // 2} conversion {i % 2 + 1}"} for i, (d, c) in enumerate(zip(sw, ref))])
     rep.bounds["hash_seeds"] = {"seeds": len(seeds), "forms": len(wbs)}
     tcfg = corpus._cfg("Trace_Process.cfg", TRACE_CFG)
     acc, info = tlc.validate_traces("Trace_Process", tcfg, traces, shards=8, tag="trc14")
@@ -158,10 +164,12 @@ def run(rep):
         kind = "history" if ev.get("ev") == "step" else ("seed" if "seed" in str(ev.get("what")) else "threads")
         which = ""
         if kind == "seed":
-            idx = int(str(ev["what"]).split("form ")[1])
-            which = ":corpus_form" if idx >= len(wbs) - 3 else ":decorated_form"
+            idx = int(str(ev["what"]).split("form ")[1].split()[0])
+            names = ["f1", "f2", "f3", "pulldata_many_files", "many_namespaces", "dict_external_choices_without_header", "dict_form_id_and_id_string"]
+            which = ":" + names[idx - (len(wbs) - len(names))] if idx >= len(wbs) - len(names) else ":decorated_form"
+            which += ":second_conversion_of_same_object" if str(ev["what"]).endswith("conversion 2") and "seed 0 " in str(ev["what"]) + " " else ""
         rep.violation(f"{PROP}:{clause}:{kind}{which}", f"clause {clause} at event {l}: {ev} history={outs[i]['hist'] if i < len(outs) else ''}"[:700],
-                      {"kind": kind, "event": ev, "hist": outs[i]["hist"] if i < len(outs) else None, "wb": (wbs[int(str(ev['what']).split('form ')[1])] if kind == 'seed' else None), "seed": ev.get("what")})
+                      {"kind": kind, "event": ev, "hist": outs[i]["hist"] if i < len(outs) else None, "wb": (wbs[int(str(ev['what']).split('form ')[1].split()[0])] if kind == 'seed' else None), "seed": ev.get("what")})
     rep.sample({"history": outs[0]["hist"], "steps": outs[0]["trace"][:3]})
     ok = [i for i in range(len(outs)) if i in acc]
     base = traces[ok[0]]
